@@ -771,6 +771,15 @@ def run(tier):
               'output visits: text of several tokens inside one leaf is '
               'opaque to all mutators now and is taken apart by the rerun '
               '(shared with C15.R3)', sub15)
+    from .. import memo as _memo
+
+    def _memo_rule(chk, prog):
+        chk.rule('C02.R16', 'memoised functions of the mutator registry and the pass builders: the cached value depends only on the cache key and is not an object shared between passes')
+        _memo.report(chk, prog, 'C02.R16', 'memoised functions of the registry / pass builders',
+                     lambda m, q: m.name in ('mutators', 'strategy_hierarchical', 'mutator_utils'),
+                     'the instance a pass restricted to one kind of command (get_initialized_mutator) is the instance of every later pass: the final sweep does not offer the proposals of the unrestricted mutator')
+
+    chk.guard(_memo_rule, chk, prog)
     extra = None
     if tier == 'thorough':
         from .. import selftest
